@@ -63,8 +63,9 @@ for _p in PROPS:
                  "shapes, closing causes, rejection origins, loan events), not of raw random numbers."
 
 ASSUMPTIONS = {p: [
-    "every traded symbol has its precision configured; initial balances and loan amounts are on the grid; no negative "
-    "initial balances",
+    "every traded symbol has its precision configured; initial balances and loan amounts are on the grid; an account "
+    "may be opened with a debt (negative initial balance), for which 'borrowed' is compared with opening debt + open "
+    "principal (the literal clause is known finding opening_debt_has_no_loan)",
     "the strategy talks to the exchange only through the public async API; order events are subscribed before the run",
     "scheduled jobs are placed between bar times (a job at exactly a bar time acts before that bar is matched, which "
     "the statement does not cover)",
